@@ -28,15 +28,23 @@ import (
 
 const listsPerCase = 25
 
+// case index layout: [0,e1) VerifyBlock lists, [e1,e1+im) import worlds, rest ReceiveBlockResult worlds
+func layout(tier string) (e1, im, br int) {
+	if tier == ev.Thorough {
+		return 1600, 240, 800
+	}
+	return 64, 12, 40
+}
+
+const importsPerWorld = 10
+
 func init() {
 	ev.Register(&ev.Prop{
 		ID:    "C05",
 		Level: "exploration",
 		Cases: func(t string) int {
-			if t == ev.Thorough {
-				return 3200
-			}
-			return 160
+			e1, im, br := layout(t)
+			return e1 + im + br
 		},
 		Batches: func(t string) int {
 			if t == ev.Thorough {
@@ -44,19 +52,27 @@ func init() {
 			}
 			return 16
 		},
-		Rule: fmt.Sprintf("each case = one validator set of n in 1..10 fresh keys (+3 foreign keys), one block (height, id), and %d commit vote lists: a subset S of validators signs the exact precommit (|S| biased to floor(2n/3), floor(2n/3)+1, n), then 0..2 items are added or substituted from: duplicated signer (same or other timestamp), non-validator, signature over another block id / round / part-set hash / part-set count word / height / prevote type / timestamp, bit-flipped signature, flipped V, V>=8, r=0, 64-byte, empty and 63-byte signature. The list bytes are encoded by the harness and decoded by goloop. Model: accept iff every item recovers (decred, harness-serialized precommit) to a distinct member and 3*items > 2*n. Non-trivial = distinct list that has at least one bad item or sits on the threshold boundary.", listsPerCase),
+		Rule: fmt.Sprintf("vote lists: a validator set of n fresh keys (+3 foreign keys); a subset S of validators signs the exact precommit (|S| biased to floor(2n/3), floor(2n/3)+1, n), then 0..2 items are added or substituted from: duplicated signer (same or other timestamp), non-validator, signature over another block id / round / part-set hash / part-set count word / height / prevote type / timestamp, bit-flipped signature, flipped V, V>=8, r=0, 64-byte, empty and 63-byte signature; list bytes encoded by the harness, decoded by goloop. Entry 1 (n in 1..10, %d lists per case): CommitVoteList.VerifyBlock against a real validator list. Entry 2 (n in 1..5, %d imports per two-node chain): an honest height-2 block whose body votes, header votes-hash and timestamp are replaced, through BlockManager.Import of a follower node. Entry 3 (n in 1..5, one list per chain): consensus.ReceiveBlockResult of a started follower with a custom BlockResult (Consume vs Reject). Model: accept iff every item recovers (decred, harness-serialized precommit) to a distinct member and 3*items > 2*n; for entry 3 (which tallies through the vote set) only the core is demanded: Consume needs > 2/3 distinct valid member precommits, a clean certificate must be consumed. Non-trivial = distinct list that has at least one bad item or sits on the threshold boundary.", listsPerCase, importsPerWorld),
 		MinNonTrivial: func(t string) int {
 			if t == ev.Thorough {
-				return 40000
+				return 20000
 			}
-			return 2000
+			return 900
 		},
-		Required: []string{"accept_agreed", "reject_agreed", "reject_too_few", "reject_duplicate", "reject_non_member", "reject_unrecoverable", "boundary_at_floor", "boundary_at_floor_plus_1", "threshold_reached_only_by_duplicate", "decode_rejected", "valid_item_reference_recovers_signer"},
+		Required: []string{"accept_agreed", "reject_agreed", "reject_too_few", "reject_duplicate", "reject_non_member", "reject_unrecoverable", "boundary_at_floor", "boundary_at_floor_plus_1", "threshold_reached_only_by_duplicate", "decode_rejected", "valid_item_reference_recovers_signer",
+			"import_accept_agreed", "import_reject_agreed", "blockresult_consume_agreed", "blockresult_reject_agreed"},
 		Assumptions: []string{
 			"decred secp256k1 recovery called directly is the reference for an item's signer",
-			"a precommit signs sha3-256 of RLP[height, round, type=1, blockID, [countWord, partSetHash] | null, timestamp] (harness encoder lib/sig/rlp.go; validated by the positive cases)",
+			"a precommit signs sha3-256 of RLP[height, round, type=1, blockID, [countWord, partSetHash] | null, timestamp] (harness encoder lib/sig/rlp.go; validated by the positive cases of all three entry points)",
 			"a signature over other content recovers to an unrelated address, which is a non-member",
-			"entry point 1 only (VerifyBlock); import and ReceiveBlockResult call the same function",
+			"import (block.verifyProofForLastBlock) calls VerifyBlock; ReceiveBlockResult (consensus.processBlock) does NOT: it converts the list with toVoteList and tallies through the height vote set, so a quorum plus extra bad items may be consumed there; only under-quorum Consume, Reject of a clean certificate, no verdict and panics are violations for entry 3",
+			"goloop's test fixture (test.NewFixture/AddNode) is the chain around entries 2 and 3; its set-up failures are counted, not judged",
+		},
+		TimeoutSec: func(t string) int {
+			if t == ev.Thorough {
+				return 3000
+			}
+			return 600
 		},
 		Run: run,
 	})
@@ -121,8 +137,8 @@ func encodeList(t target, items []item) []byte {
 
 var badKinds = []string{"dup-same-ts", "dup-other-ts", "foreign", "other-block-id", "other-round", "other-psid-hash", "other-psid-countword", "psid-nil-vs-set", "other-height", "prevote", "other-timestamp", "bitflip", "flip-v", "v-ge-8", "r-zero", "len64", "len0", "len63", "random65"}
 
-func mkBad(r *rand.Rand, kind string, t target, vals, foreign []*sig.Key, present []item, presentIdx []int) item {
-	ts := r.Int63n(1 << 50)
+func mkBad(r *rand.Rand, kind string, t target, vals, foreign []*sig.Key, present []item, presentIdx []int, tsBase int64) item {
+	ts := tsBase + 1 + r.Int63n(1<<50)
 	signer := vals[r.Intn(len(vals))]
 	alt := t
 	switch kind {
@@ -134,7 +150,7 @@ func mkBad(r *rand.Rand, kind string, t target, vals, foreign []*sig.Key, presen
 			}
 		}
 		if len(cand) == 0 {
-			return mkBad(r, "foreign", t, vals, foreign, present, presentIdx)
+			return mkBad(r, "foreign", t, vals, foreign, present, presentIdx, tsBase)
 		}
 		j := cand[r.Intn(len(cand))]
 		if kind == "dup-same-ts" {
@@ -215,266 +231,304 @@ func mkBad(r *rand.Rand, kind string, t target, vals, foreign []*sig.Key, presen
 	return item{ts, signer.SignRSV(voteHash(alt, ts)), kind}
 }
 
+func privHex(vals []*sig.Key) []string {
+	var out []string
+	for _, k := range vals {
+		out = append(out, hex.EncodeToString(k.PrivBytes()))
+	}
+	return out
+}
+
+func freshKeys(r *rand.Rand, n int) (vals, foreign []*sig.Key, index map[[20]byte]int) {
+	seen := map[[20]byte]bool{}
+	fresh := func() *sig.Key {
+		for {
+			k := sig.NewKey(r)
+			if !seen[k.Addr] {
+				seen[k.Addr] = true
+				return k
+			}
+		}
+	}
+	index = map[[20]byte]int{}
+	for i := 0; i < n; i++ {
+		k := fresh()
+		vals = append(vals, k)
+		index[k.Addr] = i
+	}
+	for i := 0; i < 3; i++ {
+		foreign = append(foreign, fresh())
+	}
+	return
+}
+
+// gen is one generated list with the model's verdict.
+type gen struct {
+	items         []item
+	kinds         []string
+	want          bool
+	reason        string
+	wantVoted     []bool
+	distinctValid int
+	onlyByDup     bool
+	floor, n      int
+}
+
+func (g *gen) kindKey() string {
+	if len(g.kinds) > 0 {
+		return g.kinds[0]
+	}
+	return "none"
+}
+
+func (g *gen) witness(t target, raw []byte, index map[[20]byte]int) map[string]interface{} {
+	var its []map[string]interface{}
+	for _, it := range g.items {
+		a, ok := sig.RefRecoverRSV(it.sig, voteHash(t, it.ts))
+		vi, member := index[a]
+		if !member || !ok {
+			vi = -1
+		}
+		its = append(its, map[string]interface{}{"kind": it.kind, "ts": it.ts, "sig": hex.EncodeToString(it.sig), "ref_recovers": ok, "ref_validator_index": vi})
+	}
+	return map[string]interface{}{"n": g.n, "height": t.height, "round": t.round, "block_id": hex.EncodeToString(t.bid),
+		"psid": fmt.Sprintf("%+v", t.ps), "items": its, "list_rlp": hex.EncodeToString(raw), "model_accepts": g.want, "model_reason": g.reason, "distinct_valid": g.distinctValid}
+}
+
+// genList builds one list for the target and judges it by the statement.
+// tsBase > 0 keeps all timestamps above it (import needs increasing block time).
+func genList(r *rand.Rand, n int, vals, foreign []*sig.Key, index map[[20]byte]int, t target, tsBase int64) *gen {
+	g := &gen{n: n, floor: 2 * n / 3}
+	newTS := func() int64 { return tsBase + 1 + r.Int63n(1<<50) }
+	var size int
+	switch r.Intn(8) {
+	case 0, 1:
+		size = g.floor
+	case 2, 3, 4:
+		size = g.floor + 1
+	case 5:
+		size = n
+	case 6:
+		size = r.Intn(n + 1)
+	default:
+		size = g.floor - 1
+	}
+	if size < 0 {
+		size = 0
+	}
+	if size > n {
+		size = n
+	}
+	perm := r.Perm(n)[:size]
+	var itemVal []int
+	for _, vi := range perm {
+		ts := newTS()
+		g.items = append(g.items, item{ts, vals[vi].SignRSV(voteHash(t, ts)), "good"})
+		itemVal = append(itemVal, vi)
+	}
+	nbad := 0
+	switch r.Intn(5) {
+	case 2, 3:
+		nbad = 1
+	case 4:
+		nbad = 2
+	}
+	for b := 0; b < nbad; b++ {
+		kind := badKinds[r.Intn(len(badKinds))]
+		goodNow := append([]item(nil), g.items[:len(perm)]...)
+		bad := mkBad(r, kind, t, vals, foreign, goodNow, itemVal, tsBase)
+		g.kinds = append(g.kinds, bad.kind)
+		isDup := bad.kind == "dup-same-ts" || bad.kind == "dup-other-ts"
+		if r.Intn(3) == 0 && len(perm) > 0 && b == 0 && !isDup {
+			j := r.Intn(len(perm))
+			g.items[j] = bad
+			itemVal[j] = -1
+		} else {
+			g.items = append(g.items, bad)
+		}
+		if isDup && size == g.floor && nbad == 1 {
+			g.onlyByDup = true
+		}
+	}
+	if r.Intn(2) == 0 {
+		r.Shuffle(len(g.items), func(i, j int) { g.items[i], g.items[j] = g.items[j], g.items[i] })
+	}
+	// ---- model
+	g.wantVoted = make([]bool, n)
+	for _, it := range g.items {
+		a, ok := sig.RefRecoverRSV(it.sig, voteHash(t, it.ts))
+		if it.kind == "good" {
+			if _, m := index[a]; !ok || !m {
+				panic("harness: honest item does not recover")
+			}
+		}
+		if !ok {
+			if g.reason == "" {
+				g.reason = "unrecoverable"
+			}
+			continue
+		}
+		vi, member := index[a]
+		if !member {
+			if g.reason == "" {
+				g.reason = "non_member"
+			}
+			continue
+		}
+		if g.wantVoted[vi] {
+			if g.reason == "" {
+				g.reason = "duplicate"
+			}
+			continue
+		}
+		g.wantVoted[vi] = true
+		g.distinctValid++
+	}
+	if g.reason == "" && !(3*len(g.items) > 2*n) {
+		g.reason = "too_few"
+	}
+	g.want = g.reason == ""
+	return g
+}
+
 func run(c *ev.Ctx) {
 	log.GlobalLogger().SetLevel(log.FatalLevel)
+	e1, im, _ := layout(c.Tier)
 	c.Cases(func(ci int, r *rand.Rand) {
-		n := 1 + r.Intn(10)
-		var vals, foreign []*sig.Key
-		seen := map[[20]byte]bool{}
-		fresh := func() *sig.Key {
-			for {
-				k := sig.NewKey(r)
-				if !seen[k.Addr] {
-					seen[k.Addr] = true
-					return k
-				}
-			}
+		switch {
+		case ci < e1:
+			runVerifyBlock(c, r)
+		case ci < e1+im:
+			runImport(c, r, 1+r.Intn(5), importsPerWorld)
+		default:
+			runBlockResult(c, r, 1+r.Intn(5))
 		}
-		for i := 0; i < n; i++ {
-			vals = append(vals, fresh())
-		}
-		for i := 0; i < 3; i++ {
-			foreign = append(foreign, fresh())
-		}
-		var mv []module.Validator
-		index := map[[20]byte]int{}
-		for i, k := range vals {
-			v, err := state.ValidatorFromAddress(common.NewAccountAddress(k.Addr[:]))
-			if err != nil {
-				panic(err)
-			}
-			mv = append(mv, v)
-			index[k.Addr] = i
-		}
-		vl, err := state.ValidatorSnapshotFromSlice(db.NewMapDB(), mv)
+	})
+}
+
+// entry point 1
+func runVerifyBlock(c *ev.Ctx, r *rand.Rand) {
+	n := 1 + r.Intn(10)
+	vals, foreign, index := freshKeys(r, n)
+	var mv []module.Validator
+	for _, k := range vals {
+		v, err := state.ValidatorFromAddress(common.NewAccountAddress(k.Addr[:]))
 		if err != nil {
 			panic(err)
 		}
-		var keyHex []string
-		for _, k := range vals {
-			keyHex = append(keyHex, hex.EncodeToString(k.PrivBytes()))
+		mv = append(mv, v)
+	}
+	vl, err := state.ValidatorSnapshotFromSlice(db.NewMapDB(), mv)
+	if err != nil {
+		panic(err)
+	}
+	keyHex := privHex(vals)
+	c.Note("validators(priv)=%v", keyHex)
+	for li := 0; li < listsPerCase && !c.Stopped(); li++ {
+		var t target
+		switch r.Intn(5) {
+		case 0:
+			t.height = 1
+		case 1:
+			t.height = int64(1) << uint(r.Intn(62))
+		default:
+			t.height = 1 + r.Int63n(1<<40)
 		}
-		c.Note("validators(priv)=%v", keyHex)
-		floor := 2 * n / 3
-
-		for li := 0; li < listsPerCase && !c.Stopped(); li++ {
-			var t target
-			switch r.Intn(5) {
-			case 0:
-				t.height = 1
-			case 1:
-				t.height = int64(1) << uint(r.Intn(62))
-			default:
-				t.height = 1 + r.Int63n(1<<40)
+		t.round = int32(r.Intn(4))
+		if r.Intn(6) == 0 {
+			t.round = int32(r.Int31())
+		}
+		t.vtype = 1
+		t.bid = randBytes(r, 32)
+		if r.Intn(8) != 0 {
+			t.ps = &psid{uint64(1 + r.Intn(100)), randBytes(r, 32)}
+			if r.Intn(3) == 0 {
+				t.ps.countWord |= uint64(r.Intn(5)) << 16 // app data (NTS vote count)
 			}
-			t.round = int32(r.Intn(4))
-			if r.Intn(6) == 0 {
-				t.round = int32(r.Int31())
+		}
+		blk := &stubBlock{h: t.height, id: t.bid, prev: randBytes(r, 32)}
+		c.Eval(1)
+		g := genList(r, n, vals, foreign, index, t, 0)
+		for _, it := range g.items {
+			if it.kind == "good" {
+				c.Count("valid_item_reference_recovers_signer", 1)
 			}
-			t.vtype = 1
-			t.bid = randBytes(r, 32)
-			if r.Intn(8) != 0 {
-				t.ps = &psid{uint64(1 + r.Intn(100)), randBytes(r, 32)}
-				if r.Intn(3) == 0 {
-					t.ps.countWord |= uint64(r.Intn(5)) << 16 // app data (NTS vote count)
-				}
-			}
-			blk := &stubBlock{h: t.height, id: t.bid, prev: randBytes(r, 32)}
-
-			// the honest part
-			var size int
-			switch r.Intn(8) {
-			case 0, 1:
-				size = floor
-			case 2, 3, 4:
-				size = floor + 1
-			case 5:
-				size = n
-			case 6:
-				size = r.Intn(n + 1)
-			default:
-				size = floor - 1
-			}
-			if size < 0 {
-				size = 0
-			}
-			if size > n {
-				size = n
-			}
-			perm := r.Perm(n)[:size]
-			var items []item
-			var itemVal []int
-			for _, vi := range perm {
-				ts := r.Int63n(1 << 50)
-				items = append(items, item{ts, vals[vi].SignRSV(voteHash(t, ts)), "good"})
-				itemVal = append(itemVal, vi)
-			}
-			// the bad part
-			nbad := 0
-			switch r.Intn(5) {
-			case 0, 1:
-			case 2, 3:
-				nbad = 1
-			default:
-				nbad = 2
-			}
-			kinds := []string{}
-			onlyByDup := false
-			for b := 0; b < nbad; b++ {
-				kind := badKinds[r.Intn(len(badKinds))]
-				goodNow := append([]item(nil), items[:len(perm)]...)
-				bad := mkBad(r, kind, t, vals, foreign, goodNow, itemVal)
-				kinds = append(kinds, bad.kind)
-				if r.Intn(3) == 0 && len(perm) > 0 && b == 0 {
-					// substitute an honest item (count stays)
-					j := r.Intn(len(perm))
-					if bad.kind == "dup-same-ts" || bad.kind == "dup-other-ts" {
-						// keep the duplicated original in the list
-						items = append(items, bad)
-					} else {
-						items[j] = bad
-						itemVal[j] = -1
-					}
-				} else {
-					items = append(items, bad)
-				}
-				if (bad.kind == "dup-same-ts" || bad.kind == "dup-other-ts") && size == floor && nbad == 1 {
-					onlyByDup = true
-				}
-			}
-			if r.Intn(2) == 0 {
-				// order must not matter
-				r.Shuffle(len(items), func(i, j int) { items[i], items[j] = items[j], items[i] })
-			}
-
-			// ---- model
-			c.Eval(1)
-			wantVoted := make([]bool, n)
-			reason := ""
-			memberItems := 0
-			for _, it := range items {
-				a, ok := sig.RefRecoverRSV(it.sig, voteHash(t, it.ts))
-				if it.kind == "good" {
-					if _, m := index[a]; !ok || !m {
-						panic("harness: honest item does not recover")
-					}
-					c.Count("valid_item_reference_recovers_signer", 1)
-				}
-				if !ok {
-					if reason == "" {
-						reason = "unrecoverable"
-					}
-					continue
-				}
-				vi, member := index[a]
-				if !member {
-					if reason == "" {
-						reason = "non_member"
-					}
-					continue
-				}
-				if wantVoted[vi] {
-					if reason == "" {
-						reason = "duplicate"
-					}
-					continue
-				}
-				wantVoted[vi] = true
-				memberItems++
-			}
-			if reason == "" && !(3*len(items) > 2*n) {
-				reason = "too_few"
-			}
-			want := reason == ""
-
-			raw := encodeList(t, items)
-			c.Note("n=%d height=%d bid=%x list=%x", n, t.height, t.bid, raw)
-			wit := func(what string) map[string]interface{} {
-				var its []map[string]interface{}
-				for _, it := range items {
-					a, ok := sig.RefRecoverRSV(it.sig, voteHash(t, it.ts))
-					vi, member := index[a]
-					if !member {
-						vi = -1
-					}
-					its = append(its, map[string]interface{}{"kind": it.kind, "ts": it.ts, "sig": hex.EncodeToString(it.sig), "ref_recovers": ok, "ref_validator_index": vi})
-				}
-				return map[string]interface{}{"what": what, "n": n, "validators_priv": keyHex, "height": t.height, "round": t.round, "block_id": hex.EncodeToString(t.bid),
-					"psid": fmt.Sprintf("%+v", t.ps), "items": its, "list_rlp": hex.EncodeToString(raw), "model_accepts": want, "model_reason": reason}
-			}
-
-			// ---- real code
-			cvs := consensus.NewCommitVoteSetFromBytes(raw)
-			got := false
-			var voted []bool
-			var verr error
-			if cvs == nil {
-				c.Count("decode_rejected", 1)
-			} else {
-				func() {
-					defer func() {
-						if p := recover(); p != nil {
-							w := wit(fmt.Sprint("panic: ", p))
-							w["stack"] = string(debug.Stack())
-							key := "verifyblock.panics"
-							if reason == "unrecoverable" {
-								key = "verifyblock.panics.unrecoverable-signature"
-							}
-							c.Violation(key, w)
-							verr = fmt.Errorf("panic: %v", p)
-							c.Count("panicked", 1)
+		}
+		raw := encodeList(t, g.items)
+		c.Note("n=%d height=%d bid=%x list=%x", n, t.height, t.bid, raw)
+		wit := func(what string) map[string]interface{} {
+			m := g.witness(t, raw, index)
+			m["what"] = what
+			m["entry"] = "VerifyBlock"
+			m["validators_priv"] = keyHex
+			return m
+		}
+		cvs := consensus.NewCommitVoteSetFromBytes(raw)
+		got := false
+		var voted []bool
+		var verr error
+		if cvs == nil {
+			c.Count("decode_rejected", 1)
+		} else {
+			func() {
+				defer func() {
+					if p := recover(); p != nil {
+						w := wit(fmt.Sprint("panic: ", p))
+						w["stack"] = string(debug.Stack())
+						key := "verifyblock.panics"
+						if g.reason == "unrecoverable" {
+							key = "verifyblock.panics.unrecoverable-signature"
 						}
-					}()
-					voted, verr = cvs.VerifyBlock(blk, vl)
+						c.Violation(key, w)
+						verr = fmt.Errorf("panic: %v", p)
+						c.Count("panicked", 1)
+					}
 				}()
-				got = verr == nil
-			}
-			kindKey := "none"
-			if len(kinds) > 0 {
-				kindKey = kinds[0]
-			}
-			switch {
-			case got && !want:
-				c.Violation("verifyblock.accepts."+reason+"."+kindKey, wit("accepted a list the statement rejects"))
-			case !got && want:
-				c.Violation("verifyblock.rejects-valid-certificate", wit(fmt.Sprint("rejected: ", verr, " decoded=", cvs != nil)))
-			case want:
-				c.Count("accept_agreed", 1)
-				if len(voted) != n {
-					c.Violation("verifyblock.voted-bitmap-length", wit(fmt.Sprint(voted)))
-				} else {
-					for i := range voted {
-						if voted[i] != wantVoted[i] {
-							c.Violation("verifyblock.voted-bitmap", wit(fmt.Sprint(voted)))
-							break
-						}
+				voted, verr = cvs.VerifyBlock(blk, vl)
+			}()
+			got = verr == nil
+		}
+		switch {
+		case got && !g.want:
+			c.Violation("verifyblock.accepts."+g.reason+"."+g.kindKey(), wit("accepted a list the statement rejects"))
+		case !got && g.want:
+			c.Violation("verifyblock.rejects-valid-certificate", wit(fmt.Sprint("rejected: ", verr, " decoded=", cvs != nil)))
+		case g.want:
+			c.Count("accept_agreed", 1)
+			if len(voted) != n {
+				c.Violation("verifyblock.voted-bitmap-length", wit(fmt.Sprint(voted)))
+			} else {
+				for i := range voted {
+					if voted[i] != g.wantVoted[i] {
+						c.Violation("verifyblock.voted-bitmap", wit(fmt.Sprint(voted)))
+						break
 					}
 				}
-			default:
-				c.Count("reject_agreed", 1)
-				c.Count("reject_"+reason, 1)
 			}
-			for _, k := range kinds {
-				c.Count("bad_"+k, 1)
-			}
-			boundary := false
-			if len(items) == floor {
-				c.Count("boundary_at_floor", 1)
-				boundary = true
-			}
-			if len(items) == floor+1 {
-				c.Count("boundary_at_floor_plus_1", 1)
-				boundary = true
-			}
-			if onlyByDup && len(items) == floor+1 {
-				c.Count("threshold_reached_only_by_duplicate", 1)
-			}
-			if len(kinds) > 0 || boundary {
-				c.NonTrivial(string(raw) + string(t.bid))
-			}
-			if li == 0 && c.WantSample() {
-				c.Sample(wit("sample"))
-			}
+		default:
+			c.Count("reject_agreed", 1)
+			c.Count("reject_"+g.reason, 1)
 		}
-	})
+		for _, k := range g.kinds {
+			c.Count("bad_"+k, 1)
+		}
+		boundary := false
+		if len(g.items) == g.floor {
+			c.Count("boundary_at_floor", 1)
+			boundary = true
+		}
+		if len(g.items) == g.floor+1 {
+			c.Count("boundary_at_floor_plus_1", 1)
+			boundary = true
+		}
+		if g.onlyByDup && len(g.items) == g.floor+1 {
+			c.Count("threshold_reached_only_by_duplicate", 1)
+		}
+		if len(g.kinds) > 0 || boundary {
+			c.NonTrivial(string(raw) + string(t.bid))
+		}
+		if li == 0 && c.WantSample() {
+			c.Sample(wit("sample"))
+		}
+	}
 }
